@@ -610,6 +610,16 @@ impl LineBuf {
 	pub fn set_cursor_clamp(&mut self, yn: bool) {
 		self.cursor.exclusive = yn;
 	}
+	/// Bring the cursor back under its clamp: inside the text, and under the
+	/// exclusive clamp also off the terminator of a non-empty line
+	pub fn enforce_cursor_clamp(&mut self) {
+		self.cursor.set(self.cursor.get());
+		if self.cursor.exclusive
+			&& self.grapheme_at_cursor().is_some_and(|gr| gr == "\n")
+			&& self.grapheme_before_cursor().is_some_and(|gr| gr != "\n") {
+				self.cursor.sub(1);
+		}
+	}
 	pub fn read_cursor_byte_pos(&self) -> usize {
 		self.read_idx_byte_pos(self.cursor.get())
 	}
